@@ -1201,7 +1201,7 @@ func PossibleFragmentSpreadsRule(context *ValidationContext) *ValidationRuleInst
 						fragType := context.Type()
 						parentType, _ := context.ParentType().(Type)
 
-						if fragType != nil && parentType != nil && !doTypesOverlap(context.Schema(), fragType, parentType) {
+						if fragType != nil && parentType != nil && IsCompositeType(fragType) && !doTypesOverlap(context.Schema(), fragType, parentType) {
 							reportError(
 								context,
 								fmt.Sprintf(`Fragment cannot be spread here as objects of `+
@@ -1222,7 +1222,7 @@ func PossibleFragmentSpreadsRule(context *ValidationContext) *ValidationRuleInst
 						}
 						fragType := getFragmentType(context, fragName)
 						parentType, _ := context.ParentType().(Type)
-						if fragType != nil && parentType != nil && !doTypesOverlap(context.Schema(), fragType, parentType) {
+						if fragType != nil && parentType != nil && IsCompositeType(fragType) && !doTypesOverlap(context.Schema(), fragType, parentType) {
 							reportError(
 								context,
 								fmt.Sprintf(`Fragment "%v" cannot be spread here as objects of `+
